@@ -574,8 +574,8 @@ def generate_intrange(envname, rng, res, combiner=None, consumer=None):
     elif consumer == 'where_like':
         # numpy.choose(x > t, [a, x]): a where built from a comparison of the range-carrying array
         cnd = g.try_op('greater', form(), [x.id, thresholds().id], {})
-        if cnd is not None:
-            cnd = g.try_op('multiply', 'ufunc', [cnd.id, const(1).id], {})     # selector as int (a bool selector is not supported by evaluable.Choose)
+        if cnd is not None and rng.random() < .5:
+            cnd = g.try_op('multiply', 'ufunc', [cnd.id, const(1).id], {})     # selector as int; otherwise the boolean selector itself (numpy.choose(f > t, [a, b]))
         if cnd is not None:
             other = const(edge())
             try:
